@@ -217,6 +217,16 @@ Proof.
 Qed.
 Print Assumptions C03_linear_in_density.
 
+(* 'at any point of any plasma': the modelled emission of an instance at the k-th point of any sequence of points is the
+   single-point value for that point, whatever was evaluated before (true by construction of the model, which has no
+   state; the tie on point sequences carries the weight for the code's per-instance caches) *)
+Theorem C03_history_independent :
+  forall (B : Type) (emit : Q -> Q -> composition -> B) (pts : list ppoint) (k : nat) (d : ppoint),
+  nth k (emission_seq emit pts) (emit (pt_ne d) (pt_te d) (pt_comp d)) =
+  emit (pt_ne (nth k pts d)) (pt_te (nth k pts d)) (pt_comp (nth k pts d)).
+Proof. intros. unfold emission_seq. exact (map_nth (fun p => emit (pt_ne p) (pt_te p) (pt_comp p)) pts d k). Qed.
+Print Assumptions C03_history_independent.
+
 (* the constant: 1/(4 pi) to double precision, and the bremsstrahlung constant for the CODATA values
    (square roots bracketed by rationals) is 1.5151e-36, i.e. 4 pi K / (hc/e) = 1.536e-38 W m^3 eV^-1/2, the
    classical free-free power coefficient (NRL formulary 1.69e-38 with a Gaunt factor of 1.1) *)
